@@ -69,3 +69,15 @@ Theorem C12_generated_parse_attrs_is_the_model : forall d ty,
   MV.Gen.ParseAttrs.parse_attrs d ty = MV.Static.Attrs.parse_attrs d ty.
 Proof. exact MV.Static.AttrsTie.tie_parse_attrs. Qed.
 Print Assumptions C12_generated_parse_attrs_is_the_model.
+
+(* the classification theorem, stated of the regenerated parse_attrs itself *)
+Theorem C12_generated_classification_sound : forall d ty mi ei mo eo, MV.Gen.ParseAttrs.parse_attrs d ty = POk (mi, ei, mo, eo) ->
+  (forall x, mem x mi && mem x ei = false) /\ (forall x, mem x mo && mem x eo = false) /\
+  (forall x, mem x mi || mem x ei = if d_any_inputs d then true else match d_attrs d with Some l => lmem x l | None => mem x mi || mem x ei end) /\
+  (forall l, d_attrs d = Some l -> forall x, mem x mo || mem x eo = lmem x l) /\
+  (forall l, d_nontrigger d = Some l -> mi = Fin l) /\ (forall l, d_trigger d = Some l -> ei = Fin l) /\
+  (forall l, d_persistent d = Some l -> mo = Fin l) /\ (forall l, d_nonpersistent d = Some l -> eo = Fin l) /\
+  (ty = ATimeBased -> (forall x, mem x ei = false) /\ (forall x, mem x eo = false)) /\
+  (ty = AEventBased -> (forall x, mem x mi = false) /\ (forall x, mem x mo = false)).
+Proof. exact MV.Static.AttrsTie.generated_classification_sound. Qed.
+Print Assumptions C12_generated_classification_sound.
